@@ -35,6 +35,9 @@ class Module:
             self.tree = ast.parse(src, path)
         except SyntaxError as e:  # pragma: no cover
             raise AnalysisError(f"cannot parse {rel}: {e}")
+        # every analysis works on the normal form (single-use temporaries inlined, sa/normalise.py)
+        from sa.normalise import normalise
+        self.n_inlined = normalise(self.tree)
         for parent in ast.walk(self.tree):
             for child in ast.iter_child_nodes(parent):
                 child._parent = parent
